@@ -7,3 +7,10 @@ MUTANTS = [
     {'name': 'STEPS table broken', 'file': 'partitura/utils/globals.py', 'old': '    "F": 3,\n    "G": 4,', 'new': '    "F": 4,\n    "G": 3,', 'expect': 'F3'}]
 
 NEUTRALS = [{'name': 'rename the copy', 'file': 'partitura/utils/music.py', 'old': '    new_score = copy.deepcopy(score)\n    # Reset recursion limit to previous value to avoid side effects\n    sys.setrecursionlimit(old_recursion_depth)\n    if isinstance(score, s.Score):\n        for part in new_score.parts:\n            for note in part.notes:\n                _transpose_note_inplace(note, interval)\n    elif isinstance(score, s.Part):\n        for note in new_score.notes:\n            _transpose_note_inplace(note, interval)\n    return new_score', 'new': '    result = copy.deepcopy(score)\n    # Reset recursion limit to previous value to avoid side effects\n    sys.setrecursionlimit(old_recursion_depth)\n    if isinstance(score, s.Score):\n        for part in result.parts:\n            for note in part.notes:\n                _transpose_note_inplace(note, interval)\n    elif isinstance(score, s.Part):\n        for note in result.notes:\n            _transpose_note_inplace(note, interval)\n    return result'}]
+
+# changes made by sub-agents that were given only the property text (see /verif/seeded/<id>/): each must stay reported
+SEEDED = [
+    {'name': 'seeded change C16-r2', 'seed': 'C16-r2', 'expect': '|P1-only|'},
+    {'name': 'seeded change C16', 'seed': 'C16', 'expect': '|COVER|'},
+]
+MUTANTS += SEEDED
